@@ -85,6 +85,7 @@ package loadbalance
 
 //@ func (*Consistent).pick
 //@   prop C19
+//@   spawns refreshHashCircle
 //@   modifies syncmapp(sessions)
 //@   requires c != nil && sessions != nil
 //@   defs nopanic-bounds
